@@ -188,6 +188,18 @@ func run(c *core.Ctx) {
 			}
 		}
 	}
+	for bi, n := range gen.BoundaryLens() {
+		if !c.Mine(bi) {
+			continue
+		}
+		for _, pad := range []string{"a", " ", ",", "\t", "1"} {
+			p := gen.Pad(pad, n)
+			check(c, p+" 1x, javascript:alert(1)")
+			check(c, p+"javascript:alert(1) 2x")
+			check(c, "/ok 1x,"+p+" javascript&colon;x")
+			check(c, p+"/x "+gen.Pad("1", n)+"x, /y")
+		}
+	}
 	// soup
 	atoms := append([]string{}, urls...)
 	atoms = append(atoms, descs...)
